@@ -1037,7 +1037,7 @@ def derivative_curve(obj):
                                           rs=(0, obj.ctrlpts_size - 1), deriv_order=1)
 
     # Generate the derivative curve
-    curve = obj.__class__()
+    curve = copy.deepcopy(obj)
     curve.degree = obj.degree - 1
     curve.ctrlpts = pkl[1][0:-1]
     curve.knotvector = obj.knotvector[1:-1]
@@ -1344,7 +1344,7 @@ def derivative_surface(obj):
         ctrlpts2d_uv.append(pkl[1][1][i][0:-1])
 
     # Generate the derivative curve
-    surf_uv = obj.__class__()
+    surf_uv = copy.deepcopy(obj)
     surf_uv.degree_u = obj.degree_u - 1
     surf_uv.degree_v = obj.degree_v - 1
     surf_uv.ctrlpts2d = ctrlpts2d_uv
